@@ -40,6 +40,16 @@ package lnwire
 //     "...|value-differs|...", "...|encode-refused-within-limits|...",
 //     "...|encoded-over-65535|...".
 //
+//   - history_independent (c10hist_test.go): before the round trip of a
+//     well-formed value (all three kinds above) 0-3 disturbances run - refused
+//     encodes of catalogued ill-formed values, failing decodes, large encodes;
+//     for 1 value in 24 also concurrently from 2-4 goroutines - and the bytes
+//     the encoder produces afterwards must equal the bytes it produced before;
+//     keys "<target>|bytes-differ|<class>",
+//     "<target>|bytes-differ-after-concurrent|<class>". For one value in three
+//     other decodes also run between the decode and the judgement of the
+//     decoded value.
+//
 //   - ext_accept_implies_canonical: the TLV extension E of a valid encoding
 //     F||E is mutated in isolation; if ReadMessage accepts F||E' then an
 //     independent BOLT-1 walker (strictly increasing types, minimal BigSize
@@ -771,6 +781,10 @@ type verifC10H struct {
 	vc     *verifCtx
 	i      int
 	attrib map[string]int
+	// history dimension (c10hist_test.go): PRNG stream of the disturbances of
+	// this case (nil = off) and the targets hostile decodes are drawn from
+	hr  *verifRng
+	tgs []verifC10Target
 }
 
 // viol reports a violation, at most 3 times per (oracle, key) and shard: the
@@ -953,11 +967,18 @@ func (h *verifC10H) checkLossless(tg verifC10Target, v any) (b0 []byte, ok bool)
 	)
 	wit := map[string]any{"target": tg.Name, "class": "valid",
 		"note": "value regenerates deterministically from (seed, case)"}
+	// history dimension: the fresh encoding, then the disturbances
+	pre := h.histBefore(tg, func() ([]byte, error) {
+		b, _, e := tg.encode(v)
+		return b, e
+	})
+	defer h.histFinish(pre, tg, "valid", false)
 	if vc.Guard("no_panic", tg.Name+"|encode-valid", wit, func() {
 		b0, tooLong, err = tg.encode(v)
 	}) {
 		return nil, false
 	}
+	h.histAfter(pre, tg, "valid", b0, err != nil || tooLong, false)
 	if tooLong {
 		vc.Count("failpkt_over_256", 1)
 		return nil, false
@@ -986,6 +1007,7 @@ func (h *verifC10H) checkLossless(tg verifC10Target, v any) (b0 []byte, ok bool)
 			"a generated value encodes but its encoding does not decode: %v", err), wit)
 		return b0, false
 	}
+	h.histMid(pre, tg, wit) // other decodes before the decoded value is judged
 	b1, _, err = tg.encode(m)
 	if err != nil || !bytes.Equal(b0, b1) {
 		h.viol("lossless_bytes", tg.Name, fmt.Sprintf(
@@ -1470,6 +1492,16 @@ var verifC10RawLens = []int{0, 1, 2, 3, 4, 5, 6, 7, 8, 9, 10, 12, 16, 20, 24, 31
 
 func (h *verifC10H) runCase(r *verifRng, tg verifC10Target, tgs []verifC10Target, nValid, nMut int) {
 	vc := h.vc
+	{
+		// the disturbances of the history dimension draw from a stream forked
+		// off a COPY of the case stream (the inputs of the older parts are
+		// unchanged)
+		rc := *r
+		h.hr, h.tgs = rc.Fork("hist"), tgs
+		if !verifC10HistOn() {
+			h.hr = nil
+		}
+	}
 	var valids [][]byte
 	for k := 0; k < nValid; k++ {
 		v, err := tg.genValid(r.Fork("valid"))
